@@ -34,6 +34,15 @@ claims.update({
  "C14": dict(level="proof", engine="E1 absint (D-int)", technique="static analysis: bit-level symbolic evaluation of Bits with the loop unrolled by constant propagation",
     text="Every one of the 256 returned entries must equal BIT(Canon(k), i) for symbolic k; the written index set is computed by the analysis.",
     note=PM, ref="3 C14"),
+ "C07": dict(level="proof", engine="E1 absint (ENUM + D-int)", technique="static analysis: path enumeration with guard-set evaluation over a symbolic byte string of symbolic length; borrow chain summarised as LT(OS2IP(in), n)",
+    text="Every path of Decode/UnmarshalBinary/DecodeHex is enumerated on a symbolic input; success must imply len=32 and OS2IP(in)<n with the receiver equal to the encoded integer, every other path must return one of three distinct errors and exclude a canonical encoding; no path can panic. Encode/MarshalBinary/Hex must be BE32(Canon(s)). The input is symbolic, so the window around n, single-limb differences and 2^256-1 are all covered by the one LT atom built from the code's own constant.",
+    note=PM, ref="3 C07"),
+ "C13": dict(level="proof", engine="E1 absint (D-int + selector range)", technique="static analysis: symbolic evaluation with representation-tagged limbs (Canon vs MontRep), borrow-chain summarisation, 0/1 range obligation at every constant-time selector",
+    text="LessOrEqual must evaluate to LT(Canon s, Canon t) OR [s=t]; there is deliberately no rewrite from an ordering of Montgomery representatives. CSelect with a symbolic 64-bit condition: the word reaching Fiat's Selectznz must be provably 0/1 and the receiver ite(cond!=0, v, u), including receiver-aliased operands; nil operands error out and write nothing. Equal/IsZero/IsOne are whole-value equalities.",
+    note=PM, ref="3 C13"),
+ "C18": dict(level="proof", engine="E1 absint (ENUM with bounded unrolling + induction)", technique="static analysis: path enumeration of Random with symbolic entropy blocks and read errors, loop unrolled 3 times, induction justified by state independence observed on the paths",
+    text="On every enumerated path: exit in iteration k assumes blocks 1..k-1 are 0 mod n and block k is not, and stores Montgomery(Bk mod n); a failed read panics with nothing stored; reads are 32 bytes from crypto/rand.Reader; Fiat's <n precondition is proven from the guard-refined interval (2^256<2n).",
+    note=PM+" The step from 3 unrolled iterations to all iterations is an induction stated in the evidence (the stored value mentions only the current block).", ref="3 C18"),
 })
 pending = {}
 ids = ["C%02d" % i for i in range(1, 20)]
